@@ -18,7 +18,7 @@ for name, cs in REG.contracts.items():
         if a.keys and not any(k in c.key for k in a.keys): continue
         t0 = time.time()
         try:
-            gs = E.verify(c)
+            gs = c.verify_with(E, c) if getattr(c, 'verify_with', None) else E.verify(c)
         except OutOfSubset as e:
             print('OUT-OF-SUBSET', c.key, e); continue
         allg += gs
